@@ -41,7 +41,27 @@ ASSUMPTIONS = [
     "key tuples are non-empty (the empty tuple is exercised separately, see known findings)",
     "StrategyDict names are strings different from 'default' and from every attribute/method of the class; "
     "stored strategies are never the class-level default lambda",
+    "only the operations the property names (item assignment / deletion / lookup, key2keys, value2keys, len, iteration, "
+    "keys/values/items views; for StrategyDict attribute get/set/del, default, call, the strategy decorator); the "
+    "mutators inherited from dict (update, pop, popitem, clear, setdefault) bypass the three maps and are outside",
 ]
+
+MANIFEST = {
+    "text": ("Lean 4 theorems, for every key/value type with decidable equality and every history length: the "
+             "coherence invariant of the three maps of MultiKeyDict is inductive; every operation of MultiKeyDict and "
+             "StrategyDict (assignment with a key tuple, deletion, lookups, attribute get/set/del, default, call) "
+             "refines an abstract key->value map ordered by recency (+ attribute map + default), with equal results "
+             "incl. KeyError / AttributeError / NotImplemented; corollaries: d[k] = last assigned value, one tuple per "
+             "value in recency order, len/iteration count values, default = first stored strategy while it keeps a "
+             "name and re-chosen when it loses all.  Tied to /repo by exhaustive small-universe and random histories."),
+    "note": ("Trusted: Lean kernel (axioms propext, Classical.choice, Quot.sound), the Python correspondence harness; the "
+             "model (Python dict = insertion-ordered association list, vars(self) = association list) is hand written "
+             "and validated against the code differentially after every step of every history, incl. the private maps "
+             "_keys_dict / _inv_dict.  Outside the theorems: the empty key tuple (recorded known finding), keys that "
+             "are themselves tuples, cross-type equal keys (1 == 1.0 == True), StrategyDict names colliding with "
+             "class attributes, and the inherited dict mutators (update, pop, clear, setdefault) which bypass the maps."),
+    "technique": "Lean 4 invariant + forward-simulation (refinement) proof over an executable model; differential history correspondence",
+}
 
 MK_KEYS = ["a", "b", "c"]
 SD_KEYS = ["a", "b"]
